@@ -214,6 +214,19 @@ def extract(repo):
             unavailable.append((name, str(ex)))
         except Exception as ex:
             unavailable.append((name, "%s: %s" % (type(ex).__name__, ex)))
+    # the shipped defaults of the options the validators read (config.py ConfigClass) vs the defaults of the model's Cfg
+    try:
+        t3 = ast.parse(open(os.path.join(repo, "nostr_relay", "config.py")).read())
+        cc = [c for c in t3.body if isinstance(c, ast.ClassDef) and c.name == "ConfigClass"][0]
+        vals = {st.targets[0].id: st.value.value for st in cc.body
+                if isinstance(st, ast.Assign) and isinstance(st.targets[0], ast.Name) and isinstance(st.value, ast.Constant)}
+        if not all(isinstance(vals.get(k), int) for k in ("max_event_size", "oldest_event")):
+            raise Unavailable("max_event_size / oldest_event are not integer class attributes")
+        defs["~config_defaults"] = "def configDefaults : Int × Int := (%d, %d)" % (vals["max_event_size"], vals["oldest_event"])
+    except Unavailable as ex:
+        unavailable.append(("ConfigClass defaults", str(ex)))
+    except Exception as ex:
+        unavailable.append(("ConfigClass defaults", "%s: %s" % (type(ex).__name__, ex)))
     return defs, unavailable
 
 
@@ -224,6 +237,10 @@ def lean_text(defs):
     thms = []
     extra = {n: v for (_, n), v in EXTRA.items()}
     for name in sorted(defs):
+        if name == "~config_defaults":
+            thms.append("tie_config_defaults")
+            lines += ["theorem tie_config_defaults : XV.configDefaults = (({} : Cfg).maxEventSize, ({} : Cfg).oldestEvent) := by decide", ""]
+            continue
         thms.append("tie_" + name)
         if name in extra:
             mname, binders, args = extra[name]
@@ -352,3 +369,269 @@ if __name__ == "__main__":
     r = run(repo, os.environ.get("VERIF_LEAN") or os.path.join(here, "lean"), keep=sys.argv[2] if len(sys.argv) > 2 else None)
     print(json.dumps(r, indent=1))
     print(json.dumps(run_intervals(repo, os.environ.get("VERIF_LEAN") or os.path.join(here, "lean")), indent=1))
+
+
+# ---- auth.Authenticator.check_auth_event (C15): straight-line tests + the loop over the tags --------------------------------------
+
+BOOL, STR = "Bool", "String"
+
+
+class AuthFn:
+    """statement translator for check_auth_event.  Verdict-valued outside the loop; inside the loop the result type is
+    Option (Option (Bool × Bool)): none = IndexError (a tag too short), some none = AuthenticationError, some (some flags) = fell through"""
+
+    def __init__(self):
+        self.env = {}
+        self.guards = []
+        self.in_loop = False
+        self.loop_def = None
+
+    def expr(self, n):
+        if isinstance(n, ast.Constant):
+            if isinstance(n.value, bool):
+                return ("true" if n.value else "false"), BOOL
+            if isinstance(n.value, int):
+                return "(%d : Int)" % n.value, INT
+            if isinstance(n.value, str):
+                return '"%s"' % n.value.replace("\\", "\\\\").replace('"', '\\"'), STR
+        if isinstance(n, ast.UnaryOp) and isinstance(n.op, ast.USub):
+            v, t = self.expr(n.operand)
+            return "(-%s)" % v, t
+        if isinstance(n, ast.BinOp) and isinstance(n.op, (ast.Sub, ast.Add)):
+            a, ta = self.expr(n.left)
+            b, tb = self.expr(n.right)
+            if ta != INT or tb != INT:
+                raise Unavailable("arithmetic on non-integers")
+            return "(%s %s %s)" % (a, "-" if isinstance(n.op, ast.Sub) else "+", b), INT
+        if isinstance(n, ast.Name):
+            if n.id in self.env:
+                return self.env[n.id]
+            if n.id == "challenge":
+                return "challenge", STR
+            raise Unavailable("free name " + n.id)
+        if isinstance(n, ast.Attribute) and isinstance(n.value, ast.Name) and n.value.id == "auth_event":
+            if n.attr == "kind":
+                return "kind", INT
+            if n.attr == "created_at":
+                return "createdAt", INT
+        if isinstance(n, ast.Call) and _is(n, "time()"):
+            return "now", INT
+        if isinstance(n, ast.Call) and _is(n, "auth_event.verify()"):
+            if "verify()" not in self.env:
+                self.guards.append(("verifies", "vfy", "Verdict.raises"))
+                self.env = dict(self.env)
+                self.env["verify()"] = ("vfy", BOOL)
+            return self.env["verify()"]
+        if isinstance(n, ast.Subscript) and isinstance(n.value, ast.Name) and isinstance(n.slice, ast.Constant) \
+                and isinstance(n.slice.value, int) and n.slice.value >= 0 and (n.value.id, "loopvar") in self.env:
+            key = "%s[%d]" % (n.value.id, n.slice.value)
+            if key not in self.env:
+                var = "%s%d" % (n.value.id, n.slice.value)
+                self.guards.append(("%s[%d]?" % (n.value.id, n.slice.value), var, "none"))
+                self.env = dict(self.env)
+                self.env[key] = (var, STR)
+            return self.env[key]
+        raise Unavailable("expression " + ast.dump(n)[:80])
+
+    def test(self, n):
+        if isinstance(n, ast.BoolOp):
+            return "(" + (" && " if isinstance(n.op, ast.And) else " || ").join(self.test(v) for v in n.values) + ")"
+        if isinstance(n, ast.UnaryOp) and isinstance(n.op, ast.Not):
+            return "(!%s)" % self.test(n.operand)
+        if isinstance(n, ast.Compare) and len(n.ops) == 1:
+            op, right = n.ops[0], n.comparators[0]
+            if isinstance(op, (ast.In, ast.NotIn)):
+                a, ta = self.expr(n.left)
+                if not (isinstance(right, ast.Attribute) and isinstance(right.value, ast.Name) and right.value.id == "self"
+                        and right.attr == "valid_urls" and ta == STR):
+                    raise Unavailable("membership in " + ast.dump(right)[:60])
+                inner = "(validUrls.contains %s)" % a
+                return "(!%s)" % inner if isinstance(op, ast.NotIn) else inner
+            a, ta = self.expr(n.left)
+            b, tb = self.expr(right)
+            if ta != tb:
+                raise Unavailable("comparison of %s with %s" % (ta, tb))
+            if isinstance(op, (ast.Gt, ast.Lt, ast.GtE, ast.LtE)):
+                if ta != INT:
+                    raise Unavailable("order on non-integers")
+                return "decide (%s %s %s)" % (a, {ast.Gt: ">", ast.Lt: "<", ast.GtE: "≥", ast.LtE: "≤"}[type(op)], b)
+            if isinstance(op, ast.Eq):
+                return "(%s == %s)" % (a, b)
+            if isinstance(op, ast.NotEq):
+                return "(%s != %s)" % (a, b)
+        v, t = self.expr(n)
+        if t == BOOL:
+            return v
+        raise Unavailable("truthiness of " + t)
+
+    def block(self, stmts, k):
+        if not stmts:
+            return k(self.env)
+        s, tail = stmts[0], stmts[1:]
+        if isinstance(s, ast.Expr) and isinstance(s.value, ast.Constant) and isinstance(s.value.value, str):
+            return self.block(tail, k)
+        if isinstance(s, ast.Raise):
+            if isinstance(s.exc, ast.Call) and isinstance(s.exc.func, ast.Name) and s.exc.func.id == "AuthenticationError":
+                return "some none" if self.in_loop else "Verdict.reject"
+            raise Unavailable("raises something other than AuthenticationError")
+        if isinstance(s, ast.Assign) and len(s.targets) == 1:
+            tg = s.targets[0]
+            # `a = b = False` is two targets in ast: handle the chained form
+            names = [t.id for t in s.targets if isinstance(t, ast.Name)]
+            if len(names) != len(s.targets):
+                raise Unavailable("assignment target")
+            v = self.expr(s.value)
+            self.env = dict(self.env)
+            for nm in names:
+                self.env[nm] = v
+            return self.block(tail, k)
+        if isinstance(s, ast.Assign):
+            names = [t.id for t in s.targets if isinstance(t, ast.Name)]
+            if len(names) != len(s.targets):
+                raise Unavailable("assignment target")
+            v = self.expr(s.value)
+            self.env = dict(self.env)
+            for nm in names:
+                self.env[nm] = v
+            return self.block(tail, k)
+        if isinstance(s, ast.If):
+            saved_guards = self.guards
+            self.guards = []
+            t = self.test(s.test)
+            guards, self.guards = self.guards, saved_guards
+            env_t = self.env
+            then = self.block(list(s.body) + list(tail), k)
+            self.env = env_t
+            other = self.block(list(s.orelse) + list(tail), k)
+            self.env = env_t
+            out = "(if %s then %s else %s)" % (t, then, other)
+            for scrut, var, on_none in reversed(guards):
+                out = "(match %s with | none => %s | some %s => %s)" % (scrut, on_none, var, out)
+            return out
+        if isinstance(s, ast.For) and isinstance(s.target, ast.Name) and not s.orelse and not self.in_loop:
+            if not (isinstance(s.iter, ast.Attribute) and isinstance(s.iter.value, ast.Name) and s.iter.value.id == "auth_event"
+                    and s.iter.attr == "tags"):
+                raise Unavailable("loop over something other than auth_event.tags")
+            assigned = {t.id for x in ast.walk(s) if isinstance(x, ast.Assign) for t in x.targets if isinstance(t, ast.Name)}
+            state = [v for v in self.env if isinstance(v, str) and v in assigned]        # in the order they were initialised
+            for v in assigned:
+                if v not in self.env or self.env[v][1] != BOOL:
+                    raise Unavailable("loop variable %s is not a flag initialised before the loop" % v)
+            if len(state) != 2:
+                raise Unavailable("the loop carries %d flags, the model two" % len(state))
+            inner = AuthFn()
+            inner.in_loop = True
+            inner.env = {v: (v, BOOL) for v in state}
+            inner.env[(s.target.id, "loopvar")] = True
+            tagvar = s.target.id
+            body = inner.block(list(s.body), lambda env: "loop validUrls challenge rest %s" % " ".join(env[v][0] for v in state))
+            self.loop_def = ("def loop (validUrls : List String) (challenge : String) : List (List String) → Bool → Bool → "
+                             "Option (Option (Bool × Bool))\n  | [], %s => some (some (%s))\n  | %s :: rest, %s => %s"
+                             % (", ".join(state), ", ".join(state), tagvar, ", ".join(state), body))
+            init = " ".join(self.env[v][0] for v in state)
+            self.env = dict(self.env)
+            for i, v in enumerate(state):
+                self.env[v] = ("fl%d" % i, BOOL)
+            after = self.block(list(tail), k)
+            return ("(match loop validUrls challenge tags %s with | none => Verdict.raises | some none => Verdict.reject "
+                    "| some (some (fl0, fl1)) => %s)" % (init, after))
+        raise Unavailable("statement " + type(s).__name__)
+
+
+def run_auth(repo, lean_dir, keep=None):
+    """check_auth_event translated and proved equal to the model's `authenticate` (for a dict-shaped event) for every clock value, event
+    and configuration; the abstraction of a concrete tag to the model's AuthTag is the one harness/props/c15.py applies (model_facts)"""
+    unavailable, failed, text, thms = [], [], "", []
+    try:
+        tree = ast.parse(open(os.path.join(repo, "nostr_relay", "auth.py")).read())
+        fn = None
+        for n in ast.walk(tree):
+            if isinstance(n, ast.FunctionDef) and n.name == "check_auth_event":
+                fn = n
+        if fn is None:
+            raise Unavailable("check_auth_event is gone")
+        if [a.arg for a in fn.args.args] != ["self", "auth_event", "challenge"]:
+            raise Unavailable("signature")
+        f = AuthFn()
+        res = f.block(list(fn.body), lambda env: "Verdict.ok")
+        if f.loop_def is None:
+            raise Unavailable("no loop over the tags")
+        # the for statement returns (text, state) from inside nested calls: flatten
+        text = "\n".join([
+            "import NostrRelay.Model.Admission", "open NostrRelay NostrRelay.Admission", "set_option linter.unusedVariables false",
+            "set_option linter.unusedSimpArgs false",
+            "/-! generated from /repo/nostr_relay/auth.py (Authenticator.check_auth_event) — do not edit -/", "namespace XA",
+            "/-- the abstraction of a concrete tag that harness/props/c15.py applies (model_facts) -/",
+            "def absTag (validUrls : List String) (challenge : String) : List String → AuthTag",
+            "  | [] => .short",
+            "  | [n] => if n == \"relay\" || n == \"challenge\" then .short else .other",
+            "  | n :: v :: _ => if n == \"relay\" then .relay (validUrls.contains v) else if n == \"challenge\" then .challenge (v == challenge) else .other",
+            f.loop_def,
+            "def checkAuthEvent (validUrls : List String) (challenge : String) (now : Int) (verifies : Option Bool) (kind createdAt : Int)",
+            "    (tags : List (List String)) : Verdict := " + res,
+            "end XA", "",
+            "theorem tie_auth_loop (vu : List String) (ch : String) (tags : List (List String)) (r c : Bool) :",
+            "    XA.loop vu ch tags r c = scanAuthTags (tags.map (XA.absTag vu ch)) r c := by",
+            "  induction tags generalizing r c with",
+            "  | nil => simp [XA.loop, scanAuthTags]",
+            "  | cons t rest ih =>",
+            "    match t with",
+            "    | [] => simp [XA.loop, XA.absTag, scanAuthTags]",
+            "    | [n] =>",
+            "      by_cases h1 : n = \"relay\"",
+            "      · subst h1; simp [XA.loop, XA.absTag, scanAuthTags]",
+            "      · by_cases h2 : n = \"challenge\"",
+            "        · subst h2; simp [XA.loop, XA.absTag, scanAuthTags]",
+            "        · simp [XA.loop, XA.absTag, scanAuthTags, h1, h2, ih]",
+            "    | n :: v :: more =>",
+            "      by_cases h1 : n = \"relay\"",
+            "      · subst h1",
+            "        by_cases h3 : v ∈ vu <;> simp [XA.loop, XA.absTag, scanAuthTags, h3, ih]",
+            "      · by_cases h2 : n = \"challenge\"",
+            "        · subst h2",
+            "          by_cases h4 : v = ch",
+            "          · subst h4; simp [XA.loop, XA.absTag, scanAuthTags, ih]",
+            "          · have h5 : (v == ch) = false := by simpa using h4",
+            "            simp [XA.loop, XA.absTag, scanAuthTags, h4, h5, ih]",
+            "        · simp [XA.loop, XA.absTag, scanAuthTags, h1, h2, ih]", "",
+            "theorem tie_check_auth_event (vu : List String) (ch : String) (now : Int) (v : Option Bool) (k ca : Int) (tags : List (List String)) :",
+            "    XA.checkAuthEvent vu ch now v k ca tags = authenticate now ⟨true, v, k, ca, tags.map (XA.absTag vu ch)⟩ := by",
+            "  unfold XA.checkAuthEvent authenticate",
+            "  rw [tie_auth_loop]",
+            "  cases v with",
+            "  | none => simp",
+            "  | some b =>",
+            "    cases b <;> simp",
+            "    repeat' split",
+            "    all_goals (first | rfl | omega | simp_all)", ""])
+        thms = ["tie_auth_loop", "tie_check_auth_event"]
+    except Unavailable as ex:
+        unavailable.append(("check_auth_event", str(ex)))
+    except Exception as ex:
+        unavailable.append(("check_auth_event", "%s: %s" % (type(ex).__name__, ex)))
+    if text:
+        if keep:
+            open(keep, "w").write(text)
+        d = tempfile.mkdtemp(prefix="tiea-")
+        path = os.path.join(d, "TieAuth.lean")
+        open(path, "w").write(text)
+        try:
+            p = subprocess.run(["lake", "env", "lean", path], cwd=lean_dir, stdout=subprocess.PIPE, stderr=subprocess.STDOUT, text=True,
+                               timeout=600)
+        finally:
+            shutil.rmtree(d, ignore_errors=True)
+        if p.returncode != 0 or ": error" in p.stdout:
+            src = text.split("\n")
+            starts = [(i + 1, l.split()[1]) for i, l in enumerate(src) if l.startswith(("theorem ", "def "))]
+            for l in p.stdout.splitlines():
+                if ": error" in l:
+                    try:
+                        ln = int(l.split(":")[1])
+                    except Exception:
+                        ln = 0
+                    owner = [n for s0, n in starts if s0 <= ln]
+                    failed.append((owner[-1] if owner else "?", l.split("error", 1)[-1].strip(": ")[:200]))
+            if not failed:
+                failed.append(("?", p.stdout[-300:]))
+    return {"status": "broken" if failed else ("partial" if unavailable else "checked"), "theorems": thms, "failed": failed,
+            "failed_names": sorted({n for n, _ in failed}), "unavailable": unavailable, "definitions": {"check_auth_event": text}}
